@@ -1998,6 +1998,33 @@ def r47(ctx, repo, henv, n, depths, n_deep):
                 bad_b = (f"depth {depth_b}, apply_manual_indices("
                          f"{list(set(excl))})",
                          res if res[0] != "ok" else ("ok", got), want)
+    # indices handed over as an array (RTDC_Hierarchy passes whatever
+    # retrieve returned; users pass numpy arrays): the stored ids must behave
+    # like a list in the next retrieval
+    for depth_b in (1, 2):
+        ch_b = build(big, ((True,) * big,) * depth_b)
+        child_b = ch_b[-1]
+        res = L.run(lambda: hf_cls(child_b))
+        if res[0] != "ok":
+            continue
+        hf_b = res[1]
+        for given, extra in (((1, 8), 3), ((2,), 5), ((0, 4, 16), 9)):
+            hf_b._attrs["manual"] = L.Arr([True] * big)
+            hf_b._attrs["_man_root_ids"] = []
+            cnt_b += 1
+            r1 = L.run(lambda: L.lookup_attr(
+                it, hf_b, "apply_manual_indices", None)(
+                    child_b, L.Arr(list(given))))
+            hf_b._attrs["manual"].data[extra] = False
+            r2 = L.run(lambda: sorted(aslist(L.lookup_attr(
+                it, hf_b, "retrieve_manual_indices", None)(child_b),
+                "result")))
+            want = sorted(set(given) | {extra})
+            if (r1[0] != "ok" or r2 != ("ok", want)) and bad_b is None:
+                bad_b = (f"depth {depth_b}: apply_manual_indices(ndarray "
+                         f"{list(given)}), then event {extra} excluded and "
+                         f"retrieve_manual_indices",
+                         r2 if r1[0] == "ok" else r1, want)
     ctx.ob("R4.7", bad_b is None,
            f"index sets beyond 8 events (unordered set iteration) are "
            f"translated correctly ({cnt_b} evaluations)" if bad_b is None
@@ -2803,4 +2830,11 @@ MUTANTS = list(MUTANTS) + [
       "            (feat, ChildNDArray(self, feat))\n"
       "            for feat in (\"image\", \"image_bg\", \"mask\")\n"
       "            if feat in self.hparent)\n"), "R4.2"),
+]
+
+# seed /verif/seeded/C04_16
+MUTANTS = list(MUTANTS) + [
+    ("apply_manual_indices keeps the caller's (array) object (seeded)", HFILT,
+     ("            self._man_root_ids = list(manual_indices)\n",
+      "            self._man_root_ids = manual_indices\n"), "R4.7"),
 ]
